@@ -303,7 +303,7 @@ class ProcessAttributeTypes(RelativeHandlerInterface):
 
         Sets:
             - The format restriction, e.g. hexBinary, base64Binary
-            - The tokens flag for xs:NMTOKENS and xs:IDREFS
+            - The tokens flag for xs:NMTOKENS, xs:IDREFS and xs:ENTITIES
 
         Args:
             attr: The attr to update
@@ -311,7 +311,7 @@ class ProcessAttributeTypes(RelativeHandlerInterface):
         """
         attr.restrictions.format = datatype.format
 
-        if datatype in (DataType.NMTOKENS, DataType.IDREFS):
+        if datatype in (DataType.NMTOKENS, DataType.IDREFS, DataType.ENTITIES):
             attr.restrictions.tokens = True
 
     @classmethod
